@@ -23,6 +23,7 @@ import (
 	"sort"
 	"strconv"
 	"strings"
+	"time"
 
 	"cuelabs.dev/go/oci/ociregistry"
 )
@@ -41,6 +42,7 @@ type fnCase struct {
 	Sret    string   `json:"sret"`           // what the stubs return: "val" (value, nil error) or "err" (value and error)
 	ArgSeed int64    `json:"argseed,string"` // seed of the argument and result values
 	Av      []string `json:"av"`             // abstract argument values per parameter after the context (TLC: ArgProfiles), empty: generated
+	Cx      string   `json:"cx"`             // kind of context passed: live (default), cancelled, expired, nil
 	Pred    string   `json:"pred"`           // TLC's predicted outcome kind for exported cases, "-" otherwise (opaque here)
 }
 
@@ -208,6 +210,45 @@ func fnGenDigest(rnd *rand.Rand) string {
 		return "bogus:" + hex.EncodeToString(b[:4])
 	}
 	return "sha256:" + hex.EncodeToString(b)
+}
+
+// fnContext makes the context of the given kind; all non-nil ones carry a tag.
+func fnContext(kind string, rnd *rand.Rand, k string) reflect.Value {
+	base := context.WithValue(context.Background(), fnCtxKey{}, fmt.Sprintf("ctx#%s-%d", k, rnd.Int63()))
+	var ctx context.Context
+	switch kind {
+	case "", "live":
+		ctx = base
+	case "cancelled":
+		c, cancel := context.WithCancel(base)
+		cancel()
+		ctx = c
+	case "expired":
+		c, cancel := context.WithDeadline(base, time.Unix(1, 0))
+		_ = cancel // released when the case is done; the deadline passed long ago
+		ctx = c
+	case "nil":
+		return reflect.Zero(fnContextType)
+	default:
+		panic(fmt.Sprintf("harness: unknown context kind %q", kind))
+	}
+	return reflect.ValueOf(&ctx).Elem()
+}
+
+// fnContextKind projects the context really passed back to its kind.
+func fnContextKind(v reflect.Value) string {
+	if v.IsNil() {
+		return "nil"
+	}
+	switch v.Interface().(context.Context).Err() {
+	case nil:
+		return "live"
+	case context.Canceled:
+		return "cancelled"
+	case context.DeadlineExceeded:
+		return "expired"
+	}
+	return "other"
 }
 
 // fnConcrete concretises an abstract argument value by the Go type of the parameter:
@@ -500,7 +541,10 @@ func fnExec(c fnCase, fields []string) ev {
 		panic(fmt.Sprintf("harness: case %d gives %d argument values for %s, which has %d parameters after the context", c.ID, len(c.Av), c.M, mt.NumIn()-1))
 	}
 	for i := range args {
-		if len(c.Av) > 0 && i > 0 {
+		if i == 0 && mt.In(0) == fnContextType {
+			args[i] = fnContext(c.Cx, arnd, "a0")
+			e["cx"] = fnContextKind(args[i])
+		} else if len(c.Av) > 0 && i > 0 {
 			args[i] = fnConcrete(mt.In(i), c.Av[i-1], arnd, fmt.Sprintf("a%d", i))
 		} else {
 			args[i] = fnGen(mt.In(i), arnd, fmt.Sprintf("a%d", i))
@@ -650,6 +694,7 @@ func fnCmd(args []string) error {
 			}
 			c.Custom = rnd.Intn(2) == 0
 		}
+		c.Cx = []string{"live", "live", "live", "cancelled", "expired", "nil"}[rnd.Intn(6)]
 		if rnd.Intn(2) == 0 {
 			mt := reflect.TypeOf((*ociregistry.Interface)(nil)).Elem()
 			mm, _ := mt.MethodByName(c.M)
